@@ -98,12 +98,13 @@ class _Inst:
 class World:
     """One simulated MPI job."""
 
-    def __init__(self, n, tape, digest=None, eager=True, thread_init=None, reassoc=True, suffix=''):
+    def __init__(self, n, tape, digest=None, eager=True, thread_init=None, reassoc=True, suffix='', assoc=None):
         self.n = n
         self.tape = tape
         self.digest = digest
         self.eager = eager
         self.reassoc = reassoc
+        self.assoc = assoc      # fixed association order of this 'MPI implementation' (list of ranks) or None
         self.thread_init = thread_init
         self.s_sched = 'sched' + suffix
         self.s_mpi = 'mpi' + suffix
@@ -228,10 +229,12 @@ class World:
         if kind == 'allreduce':
             if inst.result is None:
                 order = list(range(self.n))
-                if self.reassoc and self.n > 2:
+                if self.assoc is not None:
+                    order = list(self.assoc)
+                elif self.reassoc and self.n > 2:
                     order = self.tape.perm(self.n, self.s_mpi)
-                    if order != list(range(self.n)):
-                        self.n_reassoc += 1
+                if order != list(range(self.n)):
+                    self.n_reassoc += 1
                 acc = pickle.loads(inst.contrib[order[0]])
                 for q in order[1:]:
                     acc = inst.meta(acc, pickle.loads(inst.contrib[q]))
